@@ -25,10 +25,16 @@ import (
 	"testing"
 	"time"
 
+	"context"
+
+	"github.com/go-logr/logr"
 	"go.minekube.com/common/minecraft/component"
 	"go.minekube.com/gate/pkg/edition/java/lite"
 	"go.minekube.com/gate/pkg/edition/java/lite/config"
+	"go.minekube.com/gate/pkg/edition/java/netmc"
 	"go.minekube.com/gate/pkg/edition/java/ping"
+	"go.minekube.com/gate/pkg/edition/java/proto/packet"
+	"go.minekube.com/gate/pkg/gate/proto"
 	"go.minekube.com/gate/pkg/util/configutil"
 	"golang.org/x/sync/singleflight"
 
@@ -58,6 +64,7 @@ type stats struct {
 	E2EReloads  int                `json:"e2e_reloads"`
 	Resolves    int                `json:"resolves"`
 	Fallbacks   int                `json:"fallback_answers"`
+	Gone        int                `json:"requester_gone_scenarios"`
 	Events      int                `json:"events"`
 	GateArrival map[string]int     `json:"gate_arrivals"`
 	Stored      map[string]int     `json:"store_events"`
@@ -280,6 +287,8 @@ func TestSchedules(t *testing.T) {
 	lap("e2e_cache")
 	e2eFallback(t, tw, &st, rng, tracefmt.EnvInt("VERIF_RESOLVE", 40))
 	lap("e2e_fallback")
+	resolveGone(t, tw, &st, rng, tracefmt.EnvInt("VERIF_GONE", 8))
+	lap("resolve_gone")
 
 	st.Events = tw.N
 	if err := tw.Close(); err != nil {
@@ -593,5 +602,112 @@ func e2eFallback(t *testing.T, tw *tracefmt.Writer, st *stats, rng *rand.Rand, n
 		for _, be := range bes {
 			be.Close()
 		}
+	}
+}
+
+// resolveGone drives lite.ResolveStatusResponseWithGeneration directly (public API, real
+// netmc connections over TCP loopback): the client whose request starts the shared, cached
+// backend fetch is gone (its connection closed) before or while the fetch runs; afterwards a
+// live client asks for the same status. The backend is healthy and slow; a fallback status is
+// configured. Emits "resolve" records for the live clients.
+func resolveGone(t *testing.T, tw *tracefmt.Writer, st *stats, rng *rand.Rand, n int) {
+	ln, err := net.Listen("tcp4", "127.0.0.1:0")
+	if err != nil {
+		t.Fatal(err)
+	}
+	defer ln.Close()
+	newConn := func() (netmc.MinecraftConn, net.Conn) {
+		cl, err := net.Dial("tcp4", ln.Addr().String())
+		if err != nil {
+			t.Fatal(err)
+		}
+		srv, err := ln.Accept()
+		if err != nil {
+			t.Fatal(err)
+		}
+		mc, _ := netmc.NewMinecraftConn(context.Background(), srv, proto.ServerBound, 30*time.Second, 30*time.Second, -1, nil)
+		return mc, cl
+	}
+	for i := 0; i < n; i++ {
+		slow := time.Duration(60+rng.Intn(120)) * time.Millisecond
+		accepted := make(chan struct{}, 16)
+		be, err := literig.Listen("127.0.0.1:0")
+		if err != nil {
+			t.Fatal(err)
+		}
+		be.SetHandler(func(a *literig.Accepted) {
+			defer a.Conn.Close()
+			_ = a.Conn.SetDeadline(time.Now().Add(30 * time.Second))
+			if _, err := readFrame(a.Conn); err != nil {
+				return
+			}
+			if _, err := readFrame(a.Conn); err != nil {
+				return
+			}
+			accepted <- struct{}{}
+			time.Sleep(slow)
+			js := statusJSON("B1")
+			_, _ = a.Conn.Write(literig.Frame(append([]byte{0x00}, literig.AppendString(nil, js)...)))
+		})
+		route := config.Route{Host: []string{"gone.ex"}, Backend: []string{fmt.Sprintf("127.0.0.1:%d", be.Port)},
+			Fallback: &config.Status{
+				MOTD:    &configutil.Component{Value: &component.Text{Content: "FALLBACK"}},
+				Version: ping.Version{Name: "fb", Protocol: 765},
+			}}
+		routes := []config.Route{route}
+		sm := lite.NewStrategyManager()
+		resolve := func(mc netmc.MinecraftConn) (string, error) {
+			hs := &packet.Handshake{ProtocolVersion: 765, ServerAddress: "gone.ex", Port: 25565, NextStatus: 1}
+			hctx := &proto.PacketContext{Direction: proto.ServerBound, Protocol: 765, PacketID: 0, Packet: hs,
+				Payload: literig.HandshakePayload(765, "gone.ex", 25565, 1, nil)}
+			sctx := &proto.PacketContext{Direction: proto.ServerBound, Protocol: 765, PacketID: 0,
+				Packet: &packet.StatusRequest{}, Payload: []byte{0x00}}
+			_, res, err := lite.ResolveStatusResponseWithGeneration(5*time.Second, 7, routes, logr.Discard(), mc, hs, hctx, sctx, sm)
+			if err != nil || res == nil {
+				return "", err
+			}
+			return res.Status, nil
+		}
+		// the requester that goes away
+		mc1, cl1 := newConn()
+		before := i%2 == 0
+		if before {
+			_ = mc1.Close() // already gone when its request is resolved
+		}
+		done1 := make(chan struct{})
+		go func() { defer close(done1); _, _ = resolve(mc1) }()
+		if !before {
+			select {
+			case <-accepted: // the shared fetch is in flight
+			case <-time.After(10 * time.Second):
+			}
+			_ = mc1.Close()
+		}
+		<-done1
+		_ = cl1.Close()
+		// let a fetch that is still running finish (nothing is judged on time)
+		time.Sleep(slow + 30*time.Millisecond)
+		// live clients
+		for k := 0; k < 2; k++ {
+			mc2, cl2 := newConn()
+			status, err := resolve(mc2)
+			_ = be.Sync()
+			result, which := "closed", 0
+			switch {
+			case err != nil:
+			case strings.Contains(status, "FALLBACK"):
+				result = "fallback"
+				st.Fallbacks++
+			case strings.Contains(status, "B1"):
+				result, which = "backend", 1
+			}
+			tw.Emit(tracefmt.Rec{"ev": "resolve", "ok": []bool{true}, "tried": []int{be.Count()}, "fallback": true,
+				"result": result, "which": which, "strategy": "", "kind": "requester-gone", "gone_before_request": before})
+			st.Resolves++
+			_ = mc2.Close()
+			_ = cl2.Close()
+		}
+		st.Gone++
+		be.Close()
 	}
 }
